@@ -106,7 +106,25 @@ pub fn check_c06(e: &Emitted) -> (Option<Violation>, Option<Parsed>) {
     if kind != want_kind {
         return (v("C06.start_end_bits", kind.name(), format!("status {} from {} but wire kind {}", e.res.class(), e.call.name(), kind.name())), None);
     }
-    let table = sender_table(e.exts, e.ptype);
+    let mut table = sender_table(e.exts, e.ptype);
+    // a chain using one mandatory id with two different data lengths (or both as final and non-final)
+    // is outside the property's domain ("known" extensions have one length): undecided, never a violation
+    {
+        let n = e.exts.len();
+        for (i, (id, d)) in e.exts.iter().enumerate() {
+            if *id < 0x100 {
+                let m = if i + 1 == n && *id == e.ptype { MExt::Final(d.len() as u8) } else { MExt::NonFinal(d.len() as u8) };
+                if table.lookup(*id) != m {
+                    return (None, None);
+                }
+            }
+        }
+    }
+    if e.exts.is_empty() && e.ptype < 0x100 {
+        // encap with a protocol type below 0x0100: a final mandatory extension without data
+        // standing for the protocol type (signalling packets such as NCR 0x0081)
+        table.entries.push((e.ptype, MExt::Final(0)));
+    }
     let p = match wire::parse(pkt, &table) {
         Ok(p) => p,
         Err(m) => {
